@@ -61,14 +61,15 @@ def _shrink(prop, stream_name, hit, max_rounds=60):
     best = hit
     rounds = 0
     improved = True
-    while improved and rounds < max_rounds:
+    t_end = time.time() + float(os.environ.get("VERIF_SHRINK_BUDGET_S", "120"))
+    while improved and rounds < max_rounds and time.time() < t_end:
         improved = False
         rounds += 1
         cands = []
         try:
             for cand in sm.shrink(best["case"]):
                 cands.append(cand)
-                if len(cands) >= 64:
+                if len(cands) >= 32:
                     break
         except Exception:
             break
